@@ -111,7 +111,12 @@ Definition st3 (f level : nat) (p : pst) (w : pw) (c : cfg) (t : tok) (yylval : 
         | None => perr w1 c1
         | Some _ =>
             let '(w2, fl) := run_validcb w1 o1 in
-            if fl then perr w2 c1 else PI f w2 c1 level (st_state (st_num p (S (s_num p))) 0)
+            if fl then perr w2 c1
+            else
+              let o2 := match s_comment p with Some cm => opt_setcomment o1 cm | None => o1 end in
+              let c2 := put_opt c1 r o2 in
+              let p1 := st_comment p None in
+              PI f w2 c2 level (st_state (st_num p1 (S (s_num p1))) 0)
         end
   | _, _ => (set_crash w "null-deref:state3", c, PERR)
   end.
